@@ -68,20 +68,20 @@ impl<'a> MtHelpers<'a> {
         let interface_name = &source.ident;
         let trait_name = Ident::new(&format!("{}Proxy", interface_name), interface_name.span());
 
-        let custom_msg: Type = parse_quote! { CustomMsgT };
+        let custom_msg: Type = parse_quote! { SvCustomMsgT };
         let prefixed_error_type: Type = parse_quote! { Self:: #error_type };
 
         let mt_app = parse_quote! {
             #sylvia ::cw_multi_test::App<
-                BankT,
-                ApiT,
-                StorageT,
-                CustomT,
-                WasmT,
-                StakingT,
-                DistrT,
-                IbcT,
-                GovT,
+                SvBankT,
+                SvApiT,
+                SvStorageT,
+                SvCustomT,
+                SvWasmT,
+                SvStakingT,
+                SvDistrT,
+                SvIbcT,
+                SvGovT,
             >
         };
 
@@ -124,7 +124,7 @@ impl<'a> MtHelpers<'a> {
             pub mod mt {
                 use super::*;
 
-                pub trait #trait_name <MtApp, #custom_msg > #where_clause {
+                pub trait #trait_name <SvMtAppT, #custom_msg > #where_clause {
                     type #error_type: From< #sylvia ::cw_std::StdError> + std::fmt::Debug + std::fmt::Display + Send + Sync + 'static;
                     #(#associated_types_declaration)*
 
@@ -133,27 +133,27 @@ impl<'a> MtHelpers<'a> {
                     #(#sudo_methods_declarations)*
                 }
 
-                impl<BankT, ApiT, StorageT, CustomT, WasmT, StakingT, DistrT, IbcT, GovT, #custom_msg, ContractT: super:: #interface_name > #trait_name < #mt_app, #custom_msg > for #sylvia ::multitest::Proxy<'_, #mt_app, ContractT >
+                impl<SvBankT, SvApiT, SvStorageT, SvCustomT, SvWasmT, SvStakingT, SvDistrT, SvIbcT, SvGovT, #custom_msg, SvContractT: super:: #interface_name > #trait_name < #mt_app, #custom_msg > for #sylvia ::multitest::Proxy<'_, #mt_app, SvContractT >
                 where
-                    ContractT:: #error_type : From< #sylvia ::cw_std::StdError> + std::fmt::Debug + std::fmt::Display + Send + Sync + 'static,
+                    SvContractT:: #error_type : From< #sylvia ::cw_std::StdError> + std::fmt::Debug + std::fmt::Display + Send + Sync + 'static,
                     #custom_msg: #sylvia ::types::CustomMsg + 'static,
-                    CustomT: #sylvia ::cw_multi_test::Module,
-                    WasmT: #sylvia ::cw_multi_test::Wasm<CustomT::ExecT, CustomT::QueryT>,
-                    BankT: #sylvia ::cw_multi_test::Bank,
-                    ApiT: #sylvia ::cw_std::Api,
-                    StorageT: #sylvia ::cw_std::Storage,
-                    CustomT: #sylvia ::cw_multi_test::Module,
-                    StakingT: #sylvia ::cw_multi_test::Staking,
-                    DistrT: #sylvia ::cw_multi_test::Distribution,
-                    IbcT: #sylvia ::cw_multi_test::Ibc,
-                    GovT: #sylvia ::cw_multi_test::Gov,
-                    CustomT::ExecT: #sylvia ::types::CustomMsg + 'static,
-                    CustomT::QueryT: #sylvia:: types::CustomQuery + 'static,
+                    SvCustomT: #sylvia ::cw_multi_test::Module,
+                    SvWasmT: #sylvia ::cw_multi_test::Wasm<SvCustomT::ExecT, SvCustomT::QueryT>,
+                    SvBankT: #sylvia ::cw_multi_test::Bank,
+                    SvApiT: #sylvia ::cw_std::Api,
+                    SvStorageT: #sylvia ::cw_std::Storage,
+                    SvCustomT: #sylvia ::cw_multi_test::Module,
+                    SvStakingT: #sylvia ::cw_multi_test::Staking,
+                    SvDistrT: #sylvia ::cw_multi_test::Distribution,
+                    SvIbcT: #sylvia ::cw_multi_test::Ibc,
+                    SvGovT: #sylvia ::cw_multi_test::Gov,
+                    SvCustomT::ExecT: #sylvia ::types::CustomMsg + 'static,
+                    SvCustomT::QueryT: #sylvia:: types::CustomQuery + 'static,
                     #mt_app : #sylvia ::cw_multi_test::Executor< #custom_msg >,
                     #where_predicates
                 {
-                    type #error_type = <ContractT as super:: #interface_name>:: #error_type ;
-                    #(type #associated_args = <ContractT as super:: #interface_name>:: #associated_args ;)*
+                    type #error_type = <SvContractT as super:: #interface_name>:: #error_type ;
+                    #(type #associated_args = <SvContractT as super:: #interface_name>:: #associated_args ;)*
 
                     #(#query_methods)*
                     #(#exec_methods)*
@@ -267,7 +267,7 @@ impl EmitMethods for MsgVariant<'_> {
 
         match self.msg_attr().msg_type() {
             MsgType::Exec => quote! {
-                fn #name (&self, #(#params,)* ) -> #sylvia ::multitest::ExecProxy::< #error_type, #api:: #type_name, MtApp, #custom_msg>;
+                fn #name (&self, #(#params,)* ) -> #sylvia ::multitest::ExecProxy::< #error_type, #api:: #type_name, SvMtAppT, #custom_msg>;
             },
             MsgType::Query => quote! {
                 fn #name (&self, #(#params,)* ) -> Result<#return_type, #error_type>;
@@ -277,7 +277,7 @@ impl EmitMethods for MsgVariant<'_> {
             },
             MsgType::Migrate => quote! {
                 #[track_caller]
-                fn #name (&self, #(#params,)* ) -> #sylvia ::multitest::MigrateProxy::< #error_type, #api :: #type_name, MtApp, #custom_msg>;
+                fn #name (&self, #(#params,)* ) -> #sylvia ::multitest::MigrateProxy::< #error_type, #api :: #type_name, SvMtAppT, #custom_msg>;
             },
             _ => quote! {},
         }
